@@ -164,6 +164,40 @@ Definition dec_flat_obj (z : str) : option (list (str * str) * str) :=
   | _ => None
   end.
 
+(* ---- a list of such objects (the script / stylesheet / meta fields): json.dumps, and the scanner of
+        json.decoder.JSONArray restricted to the separators json.dumps writes -------------------- *)
+Fixpoint enc_objs (l : list (list (str * str))) : str :=
+  match l with
+  | [] => []
+  | o :: l' => enc_flat_obj o ++ match l' with [] => [] | _ :: _ => [44; 32] ++ enc_objs l' end
+  end.
+Definition enc_obj_list (l : list (list (str * str))) : str := 91 :: enc_objs l ++ [93].
+
+Fixpoint dec_objs (fuel : nat) (z : str) : option (list (list (str * str)) * str) :=
+  match fuel with
+  | O => None
+  | S f =>
+    match dec_flat_obj z with
+    | None => None
+    | Some (o, z1) =>
+      match z1 with
+      | 93 :: z2 => Some ([o], z2)
+      | 44 :: 32 :: z2 =>
+        match dec_objs f z2 with
+        | Some (l, z3) => Some (o :: l, z3)
+        | None => None
+        end
+      | _ => None
+      end
+    end
+  end.
+Definition dec_obj_list (z : str) : option (list (list (str * str)) * str) :=
+  match z with
+  | 91 :: 93 :: z' => Some ([], z')
+  | 91 :: z' => dec_objs (length z') z'
+  | _ => None
+  end.
+
 (* ---- regex OPENER, lazy any-character group, CLOSER : re.findall + re.sub with the empty string --- *)
 (* first occurrence of needle: text before it, text after it *)
 Fixpoint split_first (needle s : str) : option (str * str) :=
